@@ -1,3 +1,4 @@
+From AQ Require Import gen.C13Consts gen.C16Close model.Builder model.CloseFrame proofs.BuilderProofs proofs.CloseEmit.
 From AQ Require Import lib.Base model.H3Parse model.H0 proofs.H3Total.
 
 (* For every event sequence (any stream ids, bytes, chunking, datagrams) and all oracle answers obeying the
@@ -45,3 +46,32 @@ Theorem blocked_stream_never_dropped : forall c sid x s,
   find_stream x (c_streams c) = Some s -> s_blocked s = true -> has_stream (c_streams (pop_if_ended c sid)) x.
 Proof. exact pop_keeps_blocked. Qed.
 Print Assumptions blocked_stream_never_dropped.
+
+(* CLOSE FRAME EMITTABLE ("after such a close the transport can still emit its closing packet, whatever text the error
+   message contains"): the closing round of QuicConnection.datagrams_to_send with _write_connection_close_frame
+   (model/CloseFrame.v, over C13's model of QuicPacketBuilder), handshake confirmed (one 1-RTT packet), builder as that
+   round creates it (close_cfg_ok: max_datagram_size >= 1200, connection ids <= 20 bytes, no flight / total budget, the
+   CryptoPair can encrypt a full datagram).  For EVERY error code and frame type below 2^62 and EVERY reason phrase -- any
+   number of characters of any UTF-8 width 1..4 -- the round returns normally (no QuicPacketBuilderStop, BufferWriteError,
+   ValueError, ... escapes) and hands back exactly one datagram with one 1-RTT packet of
+   header + 1 + varint(code) [+ varint(frame type)] + varint(length) + shortened reason + AEAD tag bytes, which is at most
+   max_datagram_size.  short_len = the reason shortened to what fits behind a TRANSPORT_CLOSE header (fix 146fc24). *)
+Theorem close_frame_emittable : forall c pn, close_cfg_ok c ->
+  forall code ftype reason,
+  0 <= code < 4611686018427387904 ->
+  match ftype with Some ft => 0 <= ft < 4611686018427387904 | None => True end ->
+  widths_ok reason ->
+  exists n1 n2 n3, 1 <= n1 <= 8 /\ 1 <= n2 <= 8 /\ 0 <= n3 <= 8 /\
+    let len := SHORT_HEADER_FIXED + c_peer c + 1 + n1 + n2 + n3 + short_len c reason + AEAD_TAG_SIZE in
+    close_round c pn [PT_ONE_RTT] code ftype reason = (ODone, [len], [(PT_ONE_RTT, len, false, false, false, pn)]) /\
+    len <= c_mds c.
+Proof. exact close_1rtt. Qed.
+Print Assumptions close_frame_emittable.
+
+(* every error code the HTTP/3 layer can close with (error_code of ProtocolError and its subclasses, read from the
+   source by tools/gen/c16_close.py) is in range, and every raise site of the source uses one of them *)
+Theorem h3_close_codes_in_range :
+  Forall (fun k => 0 <= k < 4611686018427387904) H3_CLOSE_CODES /\
+  Forall (fun s => In (fst (fst s)) H3_CLOSE_CODES) H3_CLOSE_SITES.
+Proof. exact (conj h3_codes_varint h3_sites_codes). Qed.
+Print Assumptions h3_close_codes_in_range.
